@@ -234,6 +234,9 @@ def _write_chunks(res, kind, fn, inputs, outdir, real_optimize):
         for item in out:
             cache[n] = item
             n += 1
+    if n == 0:  # litdata's merge() would wait for an index file forever
+        _fail(res, f"frameworks:{kind}:chunk-fn:no-items", f"the chunk function produced no item for {len(inputs)} labelled frames with a non-empty instance")
+        return runner.FAILED
     cache.done()
     cache.merge()
     return n
@@ -327,7 +330,7 @@ def _compare(res, kind, pair, key3, a, b, cfg, exact_img, flags):
             kp_ok = False
             if kind == "single" and flags["has_pair"]:
                 _fail(res, "frameworks:single:channels:user+predicted-frame",
-                      f"{where}: `{k}` {d}: the Dataset pads single-instance keypoints to the unfiltered instance count of the label set, "
+                      f"{where}: `{k}` {tuple(a[k].shape)} vs {tuple(b[k].shape)}: the Dataset pads single-instance keypoints to the unfiltered instance count of the label set, "
                       f"the chunk function does not; confidence-map channel counts differ accordingly")
             else:
                 _fail(res, f"{pre}:keypoints-shape:{k}", f"{where}: {k} {d}")
@@ -390,6 +393,8 @@ def _eval_frameworks(case, real_optimize=False):
                         res.cls("all-empty-frame:chunk-fn-returns")
                     except ValueError:
                         res.cls("all-empty-frame:chunk-fn-raises")
+        if not inputs:  # nothing to optimise (litdata's writer would wait for chunks forever)
+            raise runner.HarnessError("generator produced a label set without any non-empty frame")
         nw = _write_chunks(res, kind, fn, inputs, d + "/bin", real_optimize)
         if nw is not runner.FAILED:
             ds_c = runner.guarded(res, f"frameworks:{kind}:stream:construct", _stream_dataset, kind, cfg, labels_c.skeletons[0].edge_inds, d + "/bin")
@@ -571,8 +576,8 @@ def strategy_frameworks(fixed_kind=None, fixed_scale_class=None):
                 if fclass == "normal" and not any(any(p is not None for p in i["pts"]) for i in insts):
                     insts[0]["pts"] = _instance(st, draw, n_nodes, h, w, "full")
             frames.append({"video": v, "frame_idx": fidx, "instances": insts})
-        if not any(any(p is not None for p in i["pts"]) for f in frames for i in f["instances"]):
-            # every frame came out all-empty: append a labelled frame AFTER them (datasets skip the leading frames)
+        if not any(_frame_has_nonempty(f, uio) for f in frames):
+            # every frame came out all-empty (after the user-instance filter): append a labelled frame AFTER them
             v = draw(st.integers(0, nv - 1))
             fidx = min(set(range(3)) - {fi for (vv, fi) in used if vv == v}, default=None)
             if fidx is None:
